@@ -71,7 +71,12 @@ RepPlans(n, v) ==
   {<<OpBuild(1), OpEncode(1, s), OpBuildRep(2, r), OpCompare(1, 2), OpEncode(2, s)>> :
       s \in CanonSyntaxes, r \in {x \in Reps : RepApplies(TRef(n), v, x)}}
   \cup {<<OpBuild(1), OpEncode(1, s), OpDecodeLit(2, "DER", BerVar(Env, TRef(n), v, BerStyles[i]), StyleName(i)), OpCompare(1, 2), OpEncode(2, s)>> :
-           s \in CanonSyntaxes, i \in {16}}
+           s \in (IF TimeTextCanonical(RawEnv, TRef(n), v) THEN CanonSyntaxes ELSE {"DER", "CXER"}), i \in {16}}
+  \* a time value held in its canonical text and in another text of the same instant: DER and CANONICAL-XER do not
+  \* depend on the text (BASIC-PER / OER carry the text as it is)
+  \cup (IF ~TimeTextCanonical(RawEnv, TRef(n), v)
+        THEN {<<OpBuild(1), OpEncode(1, s), OpBuildVal(2, CanonTimes(RawEnv, TRef(n), v)), OpCompare(1, 2), OpEncode(2, s)>> : s \in {"DER", "CXER"}}
+        ELSE {})
 \* ---- C07: encoder sinks ------------------------------------------------------
 Rels == <<"zero", "one", "half", "minus1", "exact", "plus1">>
 SinkPlans(n, v) ==
